@@ -58,10 +58,11 @@ Record iobs := mkIObs {
   io_stopping : bool;      (* a Stop/StopWithContext call is in progress *)
   io_stopped : bool;       (* a stop call has returned (successfully) and no Start since *)
   io_terms : Z;            (* number of times the claim was raised *)
-  io_views : list (Z * Z)  (* (token, revision) pairs the instance held while claiming *)
+  io_views : list (Z * Z); (* (token, revision) pairs the instance held while claiming *)
+  io_false_cause : Z       (* call site that last cleared the claim *)
 }.
-#[export] Instance eta_iobs : Settable _ := settable! mkIObs <io_flag; io_tok; io_acq_rev; io_state; io_started; io_stopping; io_stopped; io_terms; io_views>.
-Definition iobs0 := mkIObs false 0 0 stInit false false false 0 [].
+#[export] Instance eta_iobs : Settable _ := settable! mkIObs <io_flag; io_tok; io_acq_rev; io_state; io_started; io_stopping; io_stopped; io_terms; io_views; io_false_cause>.
+Definition iobs0 := mkIObs false 0 0 stInit false false false 0 [] 0.
 
 Record base := mkBase {
   b_now : Z;
@@ -159,7 +160,7 @@ Definition bapply (b0 : base) (te : Z * ev) : base :=
                                      <| io_terms ::= Z.succ |> <| io_views ::= cons (tok, lr_rev r) |>)
         | None => upd_inst b i (fun x => x <| io_flag := true |> <| io_tok := 0 |> <| io_acq_rev := 0 |> <| io_terms ::= Z.succ |>)
         end
-      else upd_inst b i (fun x => x <| io_flag := false |>)
+      else upd_inst b i (fun x => x <| io_flag := false |> <| io_false_cause := cause |>)
   | ETrans i f to => upd_inst b i (fun x => x <| io_state := to |>)
   | ELog i code gid extra =>
       if code =? 1 then upd_inst b i (fun x => x <| io_state := stCandidate |> <| io_started := true |> <| io_stopped := false |>)
